@@ -145,6 +145,21 @@ func c16Inputs(thorough bool) []c16case {
 	add("ios-two-gdoi-maps", "IOS", core.Files{Main: "crypto map GDOI-03 10 gdoi\n set group GDOI-03\ncrypto map GDOI-04 10 gdoi\n set group GDOI-04\n" +
 		"interface eth0\n ip address 10.1.2.3 255.255.255.252\n crypto map GDOI-03\ninterface eth1\n ip address 10.1.2.5 255.255.255.252\n crypto map GDOI-04\n"},
 		core.Files{Main: "interface eth0\n ip address 10.1.2.3 255.255.255.252\ninterface eth1\n ip address 10.1.2.5 255.255.255.252\n"})
+	// several independent errors in one input: the one reported must not
+	// depend on the iteration order
+	{
+		var aaa, acls, maps, ios strings.Builder
+		for _, n := range []string{"A", "B", "C"} {
+			aaa.WriteString("aaa-server LDAP_" + n + " protocol ldap\naaa-server LDAP_" + n + " (inside) host 10.2.8.8\n ldap-attribute-map MAP1\naaa-server LDAP_" + n + " (inside) host 10.2.8.16\n ldap-attribute-map MAP2\n")
+			acls.WriteString("access-list acl_" + n + " extended permit tcp object-group\n")
+			maps.WriteString("crypto map map_" + n + " 1 set ikev1 transform-set t1 t2 t3 t4 t5 t6 t7 t8 t9 t10 t11 t12\n")
+			ios.WriteString("ip access-list extended acl_" + n + "\n permit tcp object-group\n")
+		}
+		add("asa-several-bad-aaa-servers", "ASA", core.Files{Main: asaIntf + "ldap attribute-map MAP1\n map-name memberOf Group-Policy\nldap attribute-map MAP2\n map-name memberOf Group-Policy\n" + aaa.String()}, core.Files{Main: ""})
+		add("asa-several-incomplete-acls", "ASA", core.Files{Main: asaIntf}, core.Files{Main: acls.String()})
+		add("asa-several-long-transform-sets", "ASA", core.Files{Main: asaIntf}, core.Files{Main: maps.String()})
+		add("ios-several-incomplete-acls", "IOS", core.Files{Main: iosIntf("Ethernet0", "10.0.0.1")}, core.Files{Main: ios.String()})
+	}
 	add("linux-struct", "Linux", core.Files{Main: "*filter\n:INPUT DROP\n:a -\n:b -\n:c -\nCOMMIT\n*mangle\n:PREROUTING ACCEPT\nCOMMIT\n*nat\n:PREROUTING ACCEPT\nCOMMIT\n"},
 		core.Files{Main: "*filter\n:INPUT DROP\n:d -\n:e -\nCOMMIT\n*raw\n:PREROUTING ACCEPT\nCOMMIT\n"})
 	// PAN-OS
